@@ -260,7 +260,8 @@ def c18(payload):
                             bad.append('re-read model has %d pulses, the model %d' % (len(m2.pulses), len(m.pulses)))
                         else:
                             for s1, s2 in zip(m.sources, m2.sources):
-                                if abs(s1.impedance - s2.impedance) > 2e-4 * abs(s1.impedance):
+                                # every load and radius is printed with 6 to 8 digits; a loaded, high-impedance feed amplifies that
+                                if abs(s1.impedance - s2.impedance) > 1e-3 * abs(s1.impedance):
                                     bad.append('feed impedance of the re-read model %r, of the model %r' % (s2.impedance, s1.impedance))
                     except ValueError as e:
                         bad.append('the re-read answers are rejected: %s' % e)
